@@ -9,7 +9,7 @@ GOML_KEYWORDS = {"fn", "let", "if", "else", "match", "while", "struct", "enum", 
 GO_KEYWORDS = ["break", "default", "func", "interface", "select", "case", "defer", "map", "chan", "goto", "switch", "const", "fallthrough",
                "range", "type", "continue", "var"]
 PREDECLARED = ["len", "append", "cap", "copy", "new", "make", "panic", "print", "println", "string", "int", "int32", "bool", "byte", "error", "any", "nil", "iota"]
-RUNTIME = ["fmt", "main0", "init", "missing", "os", "strconv"]    # Go-level helper names that are not goml builtins (those would clash at the goml level)
+RUNTIME = ["fmt", "main0", "init", "missing", "os", "strconv", "domain", "my_main", "main1"]    # Go-level helper names that are not goml builtins (those would clash at the goml level)
 TEMPS = ["t0", "t5", "ret3", "mtmp0", "x1", "env3", "a__1"]
 TYPEISH = ["Tuple2_int32_bool", "closure_env_adder_0", "dyn__Show", "ref_int32_x", "ref__Ref_int32", "ref_get__Ref_int32", "array_get__Array_3_int32",
            "describe__T_int32", "ident__T_string", "int", "uint", "rune"]
